@@ -56,6 +56,8 @@ const (
 	saleWrong = "0xDDdDddDdDdddDDddDDddDDDDdDdDDdDDdDDDDDDd"
 )
 
+var batchTimeout int64 // what getBatchTimeoutHeight gives in the fixture
+
 var (
 	chainNames = []string{"test-chain", "test-chain-2", "evm-c"}
 	denomsC    = []string{"ugrain", "utokb", "utokc"}
@@ -196,6 +198,7 @@ func setup(t *testing.T) *env {
 		e.orig = append(e.orig, v)
 	}
 	e.base = ctx
+	batchTimeout = ctx.BlockTime().Unix() + 600
 	return e
 }
 
@@ -692,6 +695,15 @@ func (or *oracle) step(e *env, ctx sdk.Context, run *emit.Run, o opT, ok bool, e
 			for _, a := range preAll[ci].Atts {
 				was[a.Hash] = a.Observed
 			}
+			now := map[string]bool{}
+			for _, a := range postAll[ci].Atts {
+				now[a.Hash] = true
+			}
+			for _, a := range preAll[ci].Atts {
+				if inCompass(preAll[ci].Compass, a) && !now[a.Hash] {
+					out = append(out, viol{"C02:genesis-roundtrip-observed", fmt.Sprintf("chain %d: the attestation at nonce %d (observed=%v) is gone after the genesis round trip", ci, a.Nonce, a.Observed)})
+				}
+			}
 			for _, a := range postAll[ci].Atts {
 				if w, okk := was[a.Hash]; !okk || w != a.Observed {
 					out = append(out, viol{"C02:genesis-roundtrip-observed", fmt.Sprintf("chain %d: attestation at nonce %d has Observed=%v after import (before: present=%v observed=%v)", ci, a.Nonce, a.Observed, okk, w)})
@@ -757,8 +769,10 @@ func (or *oracle) step(e *env, ctx sdk.Context, run *emit.Run, o opT, ok bool, e
 			out = append(out, viol{"C02:two-claims-one-nonce", fmt.Sprintf("second claim took effect at nonce %d within one reset epoch", a.Nonce)})
 		}
 		or.seen[k3] = true
+		ran := false
 		switch m := a.Cl.(type) {
 		case *types.MsgSendToPalomaClaim:
+			ran = strings.EqualFold(m.TokenContract, tokC[c])
 			if strings.EqualFold(m.TokenContract, tokC[c]) {
 				for i, r := range e.rcv {
 					if r.String() == m.PalomaReceiver {
@@ -770,6 +784,7 @@ func (or *oracle) step(e *env, ctx sdk.Context, run *emit.Run, o opT, ok bool, e
 			if strings.EqualFold(m.TokenContract, tokC[c]) {
 				if to, okk := bat[[2]uint64{uint64(c), m.BatchNonce}]; okk && m.EthBlockHeight < to {
 					delete(bat, [2]uint64{uint64(c), m.BatchNonce})
+					ran = true
 				}
 			}
 		case *types.MsgLightNodeSaleClaim:
@@ -778,10 +793,12 @@ func (or *oracle) step(e *env, ctx sdk.Context, run *emit.Run, o opT, ok bool, e
 					id := int64(10*c + i + 1)
 					if _, has := lic[id]; cl == m.ClientAddress && !has {
 						lic[id] = m.Amount.Int64()
+						ran = true
 					}
 				}
 			}
 		}
+		run.Count("handler", fmt.Sprintf("%s ran=%v", a.Cl.GetType(), ran))
 	}
 	if o.Kind == "tally" || o.Kind == "vote" || o.Kind == "prune" || o.Kind == "catchup" || o.Kind == "override" || o.Kind == "activate" {
 		// exactly once when applicable, never otherwise — batches and licences
@@ -1126,6 +1143,9 @@ func variant(r *rand.Rand, sh *shadow, n uint64, k int) *claimT {
 			c.Amt = int64(sh.made[r.Intn(len(sh.made))])
 		}
 		c.OtherTk = k == 6 && r.Intn(6) == 0
+		if k == 6 && r.Intn(3) == 0 { // at / just below / just above the batch timeout (block time + 10 min, as a height)
+			c.Height = uint64(batchTimeout + int64(r.Intn(3)) - 1)
+		}
 	case 7, 8: // light-node sale: right / wrong sale contract, one of three clients
 		c.Sale = true
 		c.Tok = k == 7 || r.Intn(2) == 0
